@@ -118,8 +118,12 @@ class Rig:
                 continue
             r = _try(o.play_card_by_player, co, PL[seat])
             if r[0] == 'exc':
-                c.violate(f'C11:observer-rejects:{type(r[1]).__name__}:{"revoke" if self._is_revoke(seat, card) else "follow"}',
+                kindp = "revoke" if self._is_revoke(seat, card) else "follow"
+                c.violate(f'C11:observer-rejects:{type(r[1]).__name__}:{kindp}',
                           f'{self.where()}: the observer in seat {s} rejected {seat} playing card {card}, which the table accepted: {r[1]!r}', self.rp({'next': card}))
+                # the single-seat engine is a trick engine as well: a sequence of plays the full-information engine plays out must be played out by it too (C04)
+                c.violate(f'C04:observed-engine-refuses:{type(r[1]).__name__}:{kindp}',
+                          f'{self.where()}: ObservedPlayingPhase (seat {s}) refuses {seat} playing card {card} ({"a revoke" if kindp == "revoke" else "following suit"}); the trick cannot be completed there: {r[1]!r}', self.rp({'next': card}))
                 self.dead_obs.add(s)
         self.hands[seat].discard(card)
         self.ref.play(card)
@@ -268,6 +272,11 @@ class Rig:
             for s in SEATS:
                 if s != active and self.hands[s]:
                     menu.append(('not-held', active, min(self.hands[s])))
+            # a card of the seat on turn, but played in the name of another seat (e.g. declarer named for a card from dummy)
+            if self.hands[active]:
+                for s in SEATS:
+                    if s != active:
+                        menu.append(('wrong-seat-named', s, min(self.hands[active])))
             if self.plays:
                 menu.append(('already-played', active, self.plays[-1]))
                 menu.append(('already-played', active, self.plays[0]))
@@ -279,6 +288,8 @@ class Rig:
         dm = ref.dummy
         for name, o in engines:
             seat_o = name[-1] if name != 'table' else None
+            if seat_o is not None and THIN_OBSERVER_FAULTS and (len(self.plays) + SEATS.index(seat_o)) % 2:
+                continue           # quick tier: each observer is offered the faults at every other position (the table engine at every one)
             before = snap(o)
             for kind, s, card in menu:
                 if seat_o is not None:
@@ -286,6 +297,7 @@ class Rig:
                     visible = (s == seat_o) or (s == dm and self.dummy_open and seat_o != dm)
                     if kind in ('not-held', 'already-played', 'after-the-end') and not visible:
                         continue
+                    # 'wrong-seat-named' is an out-of-turn play: the turn is public, every observer must refuse it
                     if kind == 'after-the-end' and s != (self.ref.leader):
                         pass
                 c.inc('faults')
@@ -338,10 +350,13 @@ def default_card(hands, seat, led) -> int:
     return min(RP.playable(hands[seat], led))
 
 
+THIN_OBSERVER_FAULTS = False
 OPTS = {'observers': True, 'playable': True, 'do_faults': True}        # set per property by the caller (module-level: work units run in forked workers)
 
 
 def set_opts(**kw):
+    global THIN_OBSERVER_FAULTS
+    THIN_OBSERVER_FAULTS = bool(kw.pop('thin', False))
     OPTS.update(kw)
 
 
@@ -353,6 +368,8 @@ def run_playout(bid, declarer, deal, departures: Dict[int, int], c: Counter, fau
     if df == 'light':
         # faults only on the default line and on every 4th departure play-out
         df = (not departures) or (sum(departures) + sum(departures.values())) % 4 == 0
+    if c.enough():
+        return None
     rig = Rig(bid, declarer, deal, c, observers=observers and OPTS['observers'], playable=OPTS['playable'], do_faults=bool(df))
     total = sum(len(v) for v in deal.values())
     try:
